@@ -318,7 +318,14 @@ fn decode(tape: &[u32]) -> Case {
         }
         _ => {
             let rank3 = t.bool();
-            let dims = if rank3 { vec![t.usize(1, 4), t.usize(1, 4), t.usize(1, 4)] } else { vec![t.usize(1, 64)] };
+            // one case in 30 is long (65..2100 elements / up to 8 x 12 x 12)
+            let long = t.chance(1, 30);
+            let dims = match (rank3, long) {
+                (true, false) => vec![t.usize(1, 4), t.usize(1, 4), t.usize(1, 4)],
+                (true, true) => vec![t.usize(2, 8), t.usize(5, 12), t.usize(5, 12)],
+                (false, false) => vec![t.usize(1, 64)],
+                (false, true) => vec![t.usize(65, 2100)],
+            };
             let class = t.pick(6) as u8;
             let seed = t.raw();
             let shift_k = t.int(-(1 << 20), 1 << 20);
@@ -402,7 +409,8 @@ fn check(case: &Case, ev: &mut CaseEv) -> CheckResult {
             let mut worst = 0.0f64;
             for i in 0..n {
                 let r = ex[i] / es;
-                let t = 2e-5 * r + 1e-37;
+                // (n eps: worst-case rounding of the sequential single-precision sum of n exponentials)
+                let t = (2e-5 + 2.0 * crate::fcmp::EPS32 * n as f64) * r + 1e-37;
                 let e = (ys[i] as f64 - r).abs();
                 worst = worst.max(e / t);
                 ensure!(e <= t, "softmax output {}: library {:e}, definition {:e}", i, ys[i], r);
@@ -441,7 +449,7 @@ impl Prop for C07 {
         t.pick(300_000, 10_000_000)
     }
     fn rule(&self) -> String {
-        "element-wise activations: enumeration of single-precision bit patterns through the public tensor API in blocks of 4096 alternating flat and 3-D (quick: arithmetic progression with prime stride 2039 and seed offset + 512 patterns around every exponent boundary and around 0, +-88.7, +-44, +-17, ...; thorough: all 2^32 patterns), 5 functions x forward/backward per pattern; every finite pattern is a distinct case, non-trivial unless x = +-0. Soft-max and single points: tape-decoded cases (length 1..64 flat or c x h x w, six input classes incl. +-3e38, all-equal, one dominant; shift tested with grid inputs and grid shifts so that x + c is exact). distinct_nontrivial counts only the tape-decoded cases; the enumeration count is reported separately.".into()
+        "element-wise activations: enumeration of single-precision bit patterns through the public tensor API in blocks of 4096 alternating flat and 3-D (quick: arithmetic progression with prime stride 2039 and seed offset + 512 patterns around every exponent boundary and around 0, +-88.7, +-44, +-17, ...; thorough: all 2^32 patterns), 5 functions x forward/backward per pattern; every finite pattern is a distinct case, non-trivial unless x = +-0. Soft-max and single points: tape-decoded cases (length 1..64 flat or c x h x w up to 4 x 4 x 4; one case in 30: 65..2100 flat or up to 8 x 12 x 12, six input classes incl. +-3e38, all-equal, one dominant; shift tested with grid inputs and grid shifts so that x + c is exact). distinct_nontrivial counts only the tape-decoded cases; the enumeration count is reported separately.".into()
     }
     fn run_case(&self, tape: &[u32], ev: &mut CaseEv) -> CheckResult {
         check(&decode(tape), ev)
